@@ -364,7 +364,7 @@ PROPS['C09'] = {
 }
 
 PROPS['C03'] = {
-    'sidecars': ['contracts/C03_sendpaths.py'],      # imports C03_e2e
+    'sidecars': ['contracts/C03_recvpaths.py'],      # imports C03_sendpaths -> C03_e2e -> C17_identity -> C13_store
     'plugins': ['sqlmodel'],
     'level': 'other',
     'explanation': 'PARTIAL - glue conjuncts only.  The statement is about conversations between 2-4 accounts through a server, all delivery '
@@ -387,10 +387,20 @@ PROPS['C03'] = {
                    '(a retry names the one participant and its counter); ensureSessionsAndSendToGroup fetches keys for exactly the participants '
                    'without a session and does the group send once, after the answer; sendToGroupWithSessions does one pairwise encryption per '
                    'participant that needs the sender key, to that participant, the group cipher exactly when this is not a retry, ONE '
-                   'envelope, the participant named only for a single-recipient retry.',
+                   'envelope, the participant named only for a single-recipient retry.  (g) receive paths (contracts/C03_recvpaths.py): '
+                   'decrypt_pkmsg / decrypt_msg / group_decrypt hand the ciphertext to the cipher of that sender (group + participant) once and '
+                   'return its plaintext with the padding stripped (v2) or unchanged; handlePreKeyWhisperMessage / handleWhisperMessage / '
+                   'handleSenderKeyMessage decrypt this stanza\'s payload for its author once, parse a v2 payload, and forward exactly ONE stanza '
+                   'upward - the rebuilt envelope with one proto child made from exactly the decrypted plaintext, attached before forwarding - '
+                   'and nothing downward (group message without a sender key: one retry request instead); parseAndHandleMessageProto rejects an '
+                   'empty payload and hands a sender-key distribution to the manager for the participant of this stanza, unchanged; onMessage.',
     'assumptions': ['python-axolotl (SessionCipher, GroupCipher, SessionBuilder) is outside the proofs: encrypt / decrypt are opaque events',
                     'random.randint(a, b) is in [a, b]', 'entity constructors (EncProtocolEntity, EncryptedMessageProtocolEntity, retry receipts) are '
-                    'opaque events: what they serialise is C09', 'handle*Message (decrypt + re-attach) are opaque events',
+                    'opaque events: what they serialise is C09',
+                    'what a session / group cipher decrypts ends in 1..255 padding bytes each equal to their count (the peer runs this stack: '
+                    'AxolotlManager.encrypt / group_encrypt contracts); an unpadded or empty plaintext from a foreign client is outside the claim',
+                    'the mapping of python-axolotl exception classes to the library-independent ones (decrypt_*) is not decided by the contracts '
+                    '(exception classes of external callees are not modelled); processPendingIncomingMessages is not under contract',
                     'getKeysFor continuation: proved for a request of two distinct jids (ListOf(jid, 2)) - bounded in the number of requested jids',
                     'skipEncJids: a recipient for whom the server returned no key bundle is written to unencrypted by design; outside the '
                     'conversations the statement quantifies over (every account has uploaded keys)'],
